@@ -497,6 +497,8 @@ func runC18(c *Ctx) {
 	checkNoQueueSendUnderClientMutex(c, "C18-R5")
 	checkCallbackProducersHandOverInline(c, "C18-R5")
 	checkClientStopAlwaysStopsQueue(c, "C18-R5")
+	checkProducerNotifiesRelevantTxOnce(c, "C18-R4")
+	checkReorgListBuiltInOneDirection(c, "C18-R4") // the producer enqueues a reorganised branch in chain order
 }
 
 // quitSignalLeavesLoop: the quit case sits in a step function f that the worker loop calls. It leaves the loop if every
@@ -626,4 +628,49 @@ func checkClientStopAlwaysStopsQueue(c *Ctx, rule string) {
 		}
 	}
 	c.Floor(rule, "client shutdown functions owning a notification queue", n, 1)
+}
+
+// checkProducerNotifiesRelevantTxOnce: "none duplicated" starts at the producer: one pass of the transaction filter
+// announces the transaction it looks at at most once — from one relevant-transaction hand-over no second one is reachable
+// inside the same invocation. (The shortcut for a transaction already seen in the mempool announces it and returns; a
+// shortcut that announces and falls through to the ordinary match announces it twice.)
+func checkProducerNotifiesRelevantTxOnce(c *Ctx, rule string) {
+	p := c.P
+	n := 0
+	for _, fn := range p.FuncsIn("chain") {
+		if fn.Parent() != nil {
+			continue
+		}
+		calls := callsNamed(fn, "onRelevantTx")
+		if len(calls) == 0 {
+			continue
+		}
+		// loops that announce one transaction per iteration are a different matter: only straight-line re-announcement
+		// of the same record is judged (same first argument)
+		for _, c1 := range calls {
+			n++
+			// a record created inside a loop is a new one on every iteration
+			var def ssa.Instruction
+			if len(c1.Call.Args) >= 2 {
+				switch d := stripConv(c1.Call.Args[1]).(type) {
+				case *ssa.Extract:
+					def, _ = d.Tuple.(ssa.Instruction)
+				case ssa.Instruction:
+					def = d
+				}
+			}
+			q := &PathQuery{Fn: fn, Barrier: func(ins ssa.Instruction) bool { return def != nil && ins == def }}
+			q.Target = func(ins ssa.Instruction, _ *ssa.BasicBlock) bool {
+				c2, ok := ins.(*ssa.Call)
+				if !ok || calleeShort(&c2.Call) != "onRelevantTx" || len(c2.Call.Args) < 2 || len(c1.Call.Args) < 2 {
+					return false
+				}
+				return stripConv(c2.Call.Args[1]) == stripConv(c1.Call.Args[1])
+			}
+			hits := q.From(c1)
+			c.Check(rule, "relevant-tx-announced-once-per-pass:"+fn.Name(), c1.Pos(), len(hits) == 0,
+				fnName(fn)+" can hand the same transaction record to the notification queue a second time in one pass: the consumer receives a duplicated RelevantTx")
+		}
+	}
+	c.Floor(rule, "relevant-transaction hand-overs in the bitcoind client", n, 2)
 }
